@@ -51,6 +51,8 @@ Proof. exact ConstraintsProofs.constraint_matches_doc_filter_product_range_valid
 Theorem constraint_matches_doc_mean_height_width_product : forall shape axis is16 isu8,
   constraint_mean_height_width_product shape axis is16 isu8 = doc_mean_height_width_product shape axis is16 isu8.
 Proof. exact ConstraintsProofs.constraint_matches_doc_mean_height_width_product. Qed.
+Theorem constraint_matches_doc_mean_width : forall shape axis, constraint_mean_width shape axis = doc_mean_width shape axis.
+Proof. exact ConstraintsProofs.constraint_matches_doc_mean_width. Qed.
 Theorem constraint_matches_doc_mean_depth : forall shape axis, constraint_mean_depth shape axis = doc_mean_depth shape axis.
 Proof. exact ConstraintsProofs.constraint_matches_doc_mean_depth. Qed.
 Theorem constraint_matches_doc_argmax_depth : forall shape, constraint_argmax_depth shape = doc_argmax_depth shape.
@@ -72,13 +74,6 @@ Theorem constraint_matches_doc_resizebi_half_pixel_centers_dims : forall ifm ofm
 Proof. exact ConstraintsProofs.constraint_matches_doc_resizebi_half_pixel_centers_dims. Qed.
 
 (* ---- where the code and the sentence differ: what holds (partial) and a witness of the difference (refuted) ---- *)
-(* mean: the width bound is applied whether or not the width axis is reduced *)
-Theorem constraint_matches_doc_mean_width_partial : forall shape axis,
-  constraint_mean_width shape = true -> doc_mean_width shape axis = true.
-Proof. exact ConstraintsProofs.constraint_matches_doc_mean_width_partial. Qed.
-Theorem constraint_matches_doc_mean_width_refuted : exists shape axis,
-  doc_mean_width shape axis = true /\ constraint_mean_width shape = false.
-Proof. exact ConstraintsProofs.constraint_matches_doc_mean_width_refuted. Qed.
 (* average pool filter range: only checked for SAME padding, and a width equal to the stride width passes *)
 Theorem constraint_matches_doc_filter_range_partial : forall sw sh kw kh padding,
   doc_filter_range kw kh = true -> constraint_filter_range sw sh kw kh padding = true.
